@@ -78,8 +78,9 @@ def rich_bases():
         base12, kind="enum", gen="aTN", traits=list(p_c12.ALL8), dv=0, variants=[
             {"style": "unit", "fields": []}, {"style": "tuple", "fields": ["T", "str"]},
             {"style": "named", "fields": ["optT", "arr", "u8"]}])).replace("'a", "'l")})
-    out.append({"src": "dropin", "traits": list(p_c12.ALL8), "code": p_c12.render(dict(
-        base12, kind="struct", gen="aTN", entry="attr", traits=list(p_c12.ALL8), variants=[
+    no_default = [t for t in p_c12.ALL8 if t != "Default"]      # (`[u8; N]: Default` does not hold for every N)
+    out.append({"src": "dropin", "traits": no_default, "code": p_c12.render(dict(
+        base12, kind="struct", gen="aTN", entry="attr", traits=no_default, variants=[
             {"style": "tuple", "fields": ["T", "str", "arr"]}])).replace("'a", "'l")})
     out.append({"src": "dropin", "traits": list(p_c12.ALL8), "code": p_c12.render(dict(
         base12, kind="struct", gen="T", entry="attr", traits=list(p_c12.ALL8), variants=[
